@@ -15,10 +15,13 @@ def run_wp(ck, names, ms, prefix=""):
         for oid, (verdict, m, dt, be) in wp.check_sum_lemmas(ms):
             ck.oblig(prefix + oid, "P", verdict, be, dt, "axiom schema for sum(): congruence proved by induction (base/step)")
         ck._sum_lemmas_done = True
-    for name in names:
+    from spec import runner
+    results = runner.pmap(wp.verify_plain, [(n, ms) for n in names], jobs=min(8, len(names)), timeout=max(180, ms // 1000 * 12))
+    for name, (pst, r) in zip(names, results):
         c = W[name]
         ck.under_contract(c["target"])
-        r = wp.verify(c, W, ms)
+        if pst != "ok":       # hard wall-clock limit or worker crash: undecided, never a verdict
+            r = dict(error=f"verifier worker {pst}: {str(r)[:200]}", dropped=[], vcs=[], sha=None)
         dropped = r["dropped"]
         if dropped:
             ck.extra.setdefault("extraction_dropped", {})[name] = dropped
@@ -28,18 +31,18 @@ def run_wp(ck, names, ms, prefix=""):
             bad.append(("extract", "undecided", r["error"], None))
         folded = {}
         for vc in r["vcs"]:
-            folded.setdefault(vc.oid, []).append(vc)
+            folded.setdefault(vc["oid"], []).append(vc)
         for oid, vcs in folded.items():
-            if any(v.status == "refuted" for v in vcs):
+            if any(v["status"] == "refuted" for v in vcs):
                 st = "refuted"
-            elif all(v.status == "proved" for v in vcs):
+            elif all(v["status"] == "proved" for v in vcs):
                 st = "proved"
             else:
                 st = "undecided"
-            ck.oblig(prefix + oid, "P", st, vcs[0].backend, sum(v.secs for v in vcs), vcs[0].note[:160] if st != "proved" else None)
+            ck.oblig(prefix + oid, "P", st, vcs[0]["backend"], sum(v["secs"] for v in vcs), vcs[0]["note"][:160] if st != "proved" else None)
             if st != "proved":
-                v = next(v for v in vcs if v.status != "proved")
-                bad.append((oid, st, v.note, str(v.model)[:2000] if v.model is not None else None))
+                v = next(v for v in vcs if v["status"] != "proved")
+                bad.append((oid, st, v["note"], v["model"]))
         expected = c.get("obligations")
         if expected is not None and len(folded) != expected and not r["error"]:
             ck.oblig(f"{prefix}{name}.obligation-count", "P", "undecided", detail=f"generated {len(folded)} obligations, contract records {expected}")
